@@ -552,9 +552,16 @@ def _r3(ctx, pkg):
         if fn is None:
             ctx.missing("R3", f"Species.{prop}", (SPECIES, 0), "property vanished")
             continue
-        fl = Flow(fn, SPECIES)
-        # no write to self.<attr> inside the getter
+        # private helper methods of Species the getter delegates the lookup to are read as part of it
+        def helper(name):
+            return pkg.resolve("Species", name)[1] if name.startswith("_") and not name.startswith("__") else None
+        fl = Flow(fn, SPECIES, resolver=helper)
+        # no write to self.<attr> inside the getter (nor inside a private helper it calls)
+        from .c09 import method_closure
         writes = [f for f in fl.facts if f.kind == "attrstore" and f.extra.get("obj") == SELF]
+        for h in method_closure(pkg, "Species", fn)[1:]:
+            if not any(ast.unparse(d) in ("property", "cached_property", "functools.cached_property") or isinstance(d, ast.Attribute) for d in h.decorator_list):
+                writes += [f for f in Flow(h, SPECIES).facts if f.kind == "attrstore" and f.extra.get("obj") == SELF and f.target == attr]
         ctx.check(not writes, "R3", f"Species.{prop}:no-caching", (SPECIES, writes[0].line if writes else fn.lineno),
                   "the getter does not store the looked-up value in the instance (a later user override / table update is honoured)" if not writes else
                   f"the getter assigns self.{writes[0].target}: the first looked-up value is frozen and later user overrides are ignored")
